@@ -655,6 +655,11 @@ impl Stdfs {
                 }
                 Stdfs::symlink(dst_path, src.alt())?;
             } else if src.is_dir() {
+                // A link at the destination is not a directory, merging into whatever it leads to
+                // would write outside of the destination
+                if Stdfs::is_symlink(&dst_path) {
+                    return Err(PathError::is_not_dir(&dst_path).into());
+                }
                 Stdfs::mkdir_m(&dst_path, dir_mode.unwrap_or(src.mode()))?;
             } else {
                 // Copying into a directory might require creating it first
